@@ -121,7 +121,13 @@ class Recorder:
         return resp
 
 
+class BudgetExceeded(BaseException):
+    """The counted-call budget of World.run_budgeted was exhausted."""
+
+
 class World:
+    calls_used = 0
+
     def __init__(self, faults: Optional[dict] = None, clock: Optional[dict] = None,
                  event_cap: int = 400_000) -> None:
         self.loop = SimLoop(event_cap=event_cap)
@@ -152,6 +158,26 @@ class World:
 
     def run(self, coro: Any) -> Any:
         return self.loop.run_until_complete(coro)
+
+    def run_budgeted(self, coro: Any, budget: int) -> Any:
+        """Run *coro* while counting Python function calls; raise BudgetExceeded (a BaseException)
+        at *budget*.  A spin inside the code under test thereby becomes a verdict at a fixed step,
+        identically on every replay (no wall clock involved)."""
+        import sys
+        count = [0]
+
+        def prof(frame: Any, event: str, arg: Any) -> None:
+            if event == "call":
+                count[0] += 1
+                if count[0] > budget:
+                    sys.setprofile(None)
+                    raise BudgetExceeded(count[0])
+        sys.setprofile(prof)
+        try:
+            return self.loop.run_until_complete(coro)
+        finally:
+            sys.setprofile(None)
+            self.calls_used = count[0]
 
     def settle(self) -> None:
         """Let close/abort callbacks run (control 'back in the event loop')."""
